@@ -849,6 +849,12 @@ def evqe(ctx, pid, setup, glits, kept, strict_multi):
         ctx.tally("evqe-outcome:" + ("ok" if "ok" in out else out["err"]))
         ctx.tally("evqe-solves")
         started = started or any(it[0] == "start" for it in obs["items"]) or out.get("err") == NOTHING
+        if out.get("err") == "BackendFailure" and not any(it[0] == "raise" for it in obs["items"]):
+            # the backend failed AFTER the loop had ended, while the result was assembled (eigenstate sampling / aux
+            # evaluation): the exception rightly propagates, but the model's `finish` has no failing measurement — the
+            # loop clauses were evaluated on the recorded trace above; the solve is not handed to the model
+            ctx.tally("skipped-model-comparison:backend-failure-during-result-assembly")
+            continue
         glits.append(g_case(case, obs))
         kept.append(replay)
     ctx.tally("evqe:" + setup.get("family", "evqe") + ":" + setup["evaluator"])
